@@ -468,7 +468,7 @@ def proof_gate(res, prop, theorems, targets=None):
     """Steps 1 of the protocol: forbidden-word scan, build, assumptions."""
     bad = scan_forbidden()
     res.obligation(not bad, "forbidden construct in Coq sources: " + "; ".join(bad[:5]) if bad else None)
-    ok, out = coq_make(targets)
+    ok, out = coq_make(targets or [f"Props/{prop}.vo"])
     res.obligation(ok, None if ok else "Coq development no longer builds: " + out[-1500:])
     if ok:
         n_ok, fails = check_theorems(prop, theorems)
